@@ -49,7 +49,7 @@ ASSUMPTIONS = ['numpy slicing and numpy.ma.concatenate are the reference for '
                'all stacked files share one schema (names, dims, dtypes, '
                'attributes)']
 BUDGET = {'quick': dict(examples=2400, max_s=240),
-          'thorough': dict(examples=40000, max_s=3000)}
+          'thorough': dict(examples=40000, max_s=1100)}
 
 FOPTS = dict(max_len=6, max_dims=5, max_vars=5, attrs=True, masked=True,
              char=True)
